@@ -350,6 +350,16 @@ class CheckC01(Check):
                     sc["params"]["h_max"] = nn
                 if r.random() < 0.6:
                     sc["domain"] = sc["domain"][:1]
+        if algo in ("StroquOOL", "SequOOL", "DOO", "StoSOO", "HCT", "T_HOO", "Zooming") and r.random() < 0.12:
+            # large declared budgets (schedules derived from n look different there); the run itself stays short
+            big = r.choice([1000, 2000, 3200, 5000, 10000])
+            key = "rounds" if algo == "T_HOO" else "n"
+            if algo not in ("HCT", "Zooming"):
+                sc["params"][key] = big
+                sc["budget"] = big
+                if algo == "StoSOO":
+                    sc["params"]["h_max"] = max(sc["params"].get("h_max", 100), 100)
+            sc["rounds"] = r.choice([200, 400, 600])
         if algo != "VROOM" and sc["meta"].get("known") is None and r.random() < 0.3:
             # get_last_point after every round: on the current tree every recommendation call except VROOM's is a read
             # (or recomputes the same path), so one run of T rounds stands for the runs of every length 1..T
@@ -537,6 +547,8 @@ class CheckC08(Check):
     design_ref = "DESIGN.md 5.8"
     oracles = (StopOutsideProviso, Ledger, C08)
     judged = {"C08"}
+    adopt = {("C04", "credit-set", "SOO"): "evaluated-twice", ("C04", "credit-set", "DOO"): "evaluated-twice",
+             ("C04", "credit-set", "StoSOO"): "over-k", ("C04", "credit-value", "StoSOO"): "over-k"}
     sizes = {"quick": 6000, "thorough": 100000}
     chunk = 40
     technique = ("deterministic simulation: nondeterministic specification of the optimistic sweep evaluated on shadow state (ledger + "
@@ -564,6 +576,8 @@ class CheckC12(Check):
     design_ref = "DESIGN.md 5.12"
     oracles = (Ledger, C12)
     judged = {"C12"}
+    # a reward booked on another cell than the one handed out means some search cell is evaluated twice (or never)
+    adopt = {("C04", "credit-set", "SequOOL"): "evaluated-twice", ("C04", "credit-value", "SequOOL"): "evaluated-twice"}
     sizes = {"quick": 12000, "thorough": 300000}
     chunk = 50
     technique = ("deterministic simulation: opening-schedule specification evaluated on shadow state at every expansion and every round")
